@@ -468,6 +468,24 @@ def install():
     # (quimb / autoray look the patched attributes up at call time.)
     import quimb  # noqa
     import quimb.tensor  # noqa
+    try:
+        # casting exact symbolic scalars to a float / complex dtype is the identity
+        import autoray as _ar
+
+        def _astype(x, dtype, **kw):
+            if getattr(x, "dtype", None) == object or isinstance(x, P.Poly):
+                return x
+            return x.astype(_ar.to_backend_dtype(dtype, like=x) if isinstance(dtype, str) else dtype, **kw)
+
+        _ar.register_function("numpy", "astype", _astype)
+    except Exception:
+        pass
+    try:
+        # check workers are daemonic processes: cotengra must not try to spawn its own pool
+        import cotengra.parallel as _cp
+        _cp._IS_WORKER = True
+    except Exception:
+        pass
     _REAL["isnan"] = np.isnan
     _REAL["isfinite"] = np.isfinite
     np.linalg.qr = _wrap(np.linalg.qr, qr_stub)
